@@ -13,6 +13,19 @@ CHECKS = [
      "design_ref": "7 C12",
      "level_note": TB + " Modelled, not verified: Rust std str::split/contains/starts_with (tied by exhaustive small scope). Never-panics is decided by the correspondence (model is total).",
      "technique": "Lean 4 proof (induction over level lists, spec as inductive relation) + exhaustive small-scope differential correspondence"},
+    {"property_id": "C13",
+     "text": "Theorems over a statement-by-statement model of CommitLog/Segment (all dev-profile panics explicit), for ALL configurations accepted by new(), ALL append sequences and entry sizes: "
+             "the reached log represents the append history (non-empty segment list, count = tail-head+1 <= max segments, contiguous absolute offsets, every opened segment holds an entry; append never panics and returns (tail, |hist|+1)); "
+             "retention drops nothing or exactly the whole oldest segment, only at the segment limit; for every issued cursor (tail at some moment, entry tag, append result, continuation; however old - issued_mono) and every count n with |hist|+n < 2^64 "
+             "readv returns exactly take n (drop a) of the retained entries tagged with their own (segment, offset), offsets consecutive, values = history, continuation issued and non-stale at a+k, two reads compose to one, Done iff nothing remains; "
+             "a stale cursor resumes at the oldest retained entry; for ANY cursor value readv does not panic and reads what the effective issued cursor reads. The unrestricted no-panic clause is refuted by a kernel-checked witness "
+             "(readv((0,1), u64::MAX) after two appends overflows idx+len) which is reproduced on the real code and recorded as a known finding. "
+             "The totalised copy of the commit log used inside the router model (namespace CLog) is proved equal to this model on every well-formed log (router_copy_agrees / router_copy_reachable), so the theorems carry over to Model/Router. "
+             "Correspondence: vh clog drives the real CommitLog<(id,size)> under catch_unwind (random append/readv/next_offset/last sequences with issued, stale and fabricated cursors; exhaustively every sequence of <=7 (thorough <=10) appends over 3 sizes "
+             "x max segments 1,2,3 followed by a read from every issued cursor x n=0..4); the driver compares every answer with the model and runs the C13 monitor on the implementation's answers against a ghost history.",
+     "design_ref": "7 C13",
+     "level_note": TB + " Modelled, not verified: u64 wrap-around of the log's own counters (needs about 2^63 appends), allocation. The read theorems carry the hypothesis |hist|+n < 2^64; Rust panic-freedom is by correspondence.",
+     "technique": "Lean 4 proof (invariant over append sequences, refinement of readv to take/drop of the tagged retained history) + exhaustive small-scope and random differential correspondence with an implementation-side monitor"},
 ]
 
 _pending = "machinery for this property is still being built in this session (see DESIGN.md section 10 build order); not claimed until its model, theorems and correspondence exist"
